@@ -209,8 +209,16 @@ def _drive(case, ctx, make_reduction, S, lid, strategy, scitype, n, wl, fh, nx, 
             f.set_params(window_length=wl0)
             m = min(n, wl0 + hmax + 3)
             try:
-                f.fit(pd.Series(np.linspace(5.0, 9.0, m), index=pd.RangeIndex(7, 7 + m)), None if X is None else
-                      pd.DataFrame({c: np.linspace(1.0, 2.0, m) for c in X.columns}, index=pd.RangeIndex(7, 7 + m)), fh=fh)
+                # the earlier series ends at time point 0 in half of these cases, and the earlier horizon is then given as the absolute time
+                # points 1.. (the same numbers as this case's relative steps, with the other meaning)
+                i0 = pd.RangeIndex(7, 7 + m) if case["dseed"] % 4 < 2 else pd.RangeIndex(1 - m, 1)
+                fh0 = fh
+                if case["dseed"] % 4 >= 2:
+                    from sktime.forecasting.base import ForecastingHorizon
+                    fh0 = ForecastingHorizon(list(fh), is_relative=False)
+                    ctx.tag("prehistory:same-numbers-as-absolute-time-points")
+                f.fit(pd.Series(np.linspace(5.0, 9.0, m), index=i0), None if X is None else
+                      pd.DataFrame({c: np.linspace(1.0, 2.0, m) for c in X.columns}, index=i0), fh=fh0)
                 ctx.tag("prehistory:fitted-with-window-%s-then-reconfigured" % ("longer" if wl0 > wl else "shorter"))
             except Exception:  # noqa
                 ctx.tag("prehistory:earlier-fit-refused")
